@@ -157,6 +157,38 @@ HISTORY_R4 = {
     "C20-r4m2": "missed at first -> individuals that carry a fitness for another, live problem",
 }
 
+HISTORY_R7 = {
+    "C01-r7m1": "missed at first -> stack-mapped grammars whose tuples REPEAT a component type with another type in between (every position holds its declared type)",
+    "C02-r7m1": "missed at first -> dependent refinements that hand a value DOWN to a child (initial_values), including 0 / empty / False",
+    "C02-r7m2": "caught at first evaluation; string sizes 9..12 added to the size boxes all the same",
+    "C03-r7m1": "caught at first evaluation; corpus extended with a failing production declared between a deeper one and the leaf",
+    "C03-r7m2": "caught at first evaluation; corpus extended with nested plain lists (Row / Table / Grid)",
+    "C04-r7m1": "missed at first -> two dependents of the SAME name with different functions (Down / Up); patch rebased onto 8bfa32c",
+    "C04-r7m2": "missed at first -> mirror languages: two grammars that differ only in the order of a list field and its sibling reach the same programs",
+    "C05-r7m2": "missed at first -> factory-made dataclasses that share one qualified name (real dataclasses through `reflect`)",
+    "C06-r7m1": "missed at first -> dSGE gene lists of offspring must not be the parents' list objects; grammars keyed by refined unions",
+    "C06-r7m2": "missed at first -> the crossover STEP over pairs that are one individual twice",
+    "C07-r7m1": "missed at first -> `update_weights` between building a representation and mapping; a representation built before and one built after",
+    "C07-r7m2": "caught at first evaluation; an unrelated `extract_grammar` between two mappings added as a scenario of its own",
+    "C08-r7m1": "missed at first (twice) -> worker grammar with production weights on two abstract symbols, read by the stack mapping (plain int leaf so that stack programs exist)",
+    "C08-r7m2": "missed at first -> 20 objectives under lexicase selection in the worker (algorithm `gplex`)",
+    "C09-r7m1": "missed at first -> hand-written programs (no metadata, no parents) as inputs of the tree operators",
+    "C09-r7m2": "missed at first -> variation steps on FRESH populations (never mapped, never evaluated): genotypes compared strictly",
+    "C10-r7m1": "caught at first evaluation",
+    "C10-r7m2": "missed at first -> weighted histories with switched-off (zero-weight) productions; zero weights in random weighted specs",
+    "C12-r7m1": "missed at first -> compositions that evaluate in the LAST step, improving landscapes: what the last step evaluated must be reported",
+    "C13-r7m2": "missed at first -> problems whose aggregate is a criterion of the PROGRAM (kind `criteria`), multi-bool corpus under the parallel evaluator",
+    "C14-r7m1": "missed at first -> parallel steps whose rounded slice shares overshoot the population (trailing weight 0 or tiny), sizes 3 / 7 / 2",
+    "C15-r7m2": "missed at first -> time budgets on a deterministic clock: a generation is never cut short",
+    "C16-r7m2": "missed at first -> problems that declare BOTH a user aggregate and a best-individual criterion (kind `multi-both`)",
+    "C17-r7m1": "missed at first -> one-objective MINIMISED multi-objective problems in tournaments, judged by the declared direction",
+    "C18-r7m1": "missed at first -> narrow ranges next to bounds whose nearest float is a power of two",
+    "C19-r7m1": "missed at first -> Union fields with a zero-weight member in whole generated programs",
+    "C19-r7m2": "missed at first -> start symbols nested under further abstract ancestors: every rule on the way is normalised",
+    "C20-r7m1": "missed at first -> one tracker and its best-only log through several searches",
+    "C20-r7m2": "missed at first -> individuals registered again later under a fitness function that fills and returns one preallocated list",
+}
+
 
 def main():
     old = (VERIF / "seeded/INDEX.md").read_text() if (VERIF / "seeded/INDEX.md").exists() else ""
@@ -170,6 +202,7 @@ def main():
     hist.update(HISTORY_R4)
     hist.update(HISTORY_R5)
     hist.update(HISTORY_R6)
+    hist.update(HISTORY_R7)
     rows, caught = [], 0
     dirs = sorted(p for p in (VERIF / "seeded").iterdir() if p.is_dir())
     for d in dirs:
@@ -182,19 +215,20 @@ def main():
         caught += ok
         rows.append(f"| {d.name} | {prop} | {what} | {'yes' if ok else 'NO'} | {chk.get('first', '')[:150].replace('|', '/')} | {hist.get(d.name, FIRST)} |")
     n = len(dirs)
-    r1 = sum(1 for d in dirs if "-r2" not in d.name and "-r3" not in d.name and "-r4" not in d.name)
-    r2 = sum(1 for d in dirs if "-r2" in d.name)
-    r4 = sum(1 for d in dirs if "-r4" in d.name)
+    def rn(k):
+        return sum(1 for d in dirs if f"-r{k}m" in d.name)
+    r1 = sum(1 for d in dirs if "-r" not in d.name)
     out = f"""# Seeded changes (by fresh sub-agents that saw only one property's text)
 
 Each directory holds `patch.diff` (apply with `git apply` in a checkout of /repo), `demo.py` (exit 0 / PASS on the unchanged library,
 exit 1 / FAIL with the change; `PYTHONPATH=<checkout> /venv/bin/python demo.py`), the author's `notes.md` and `meta.json` (what it needs to manifest,
 what was run, which checks catch it).  None of these changes is ever applied to /repo; `harness/tools/seed_eval.py` / `mutant_run.sh` run the checks
 against scratch copies (`VERIF_REPO`).  All {n} changes keep the repository's fast test subset green (the authors also ran the slow parts touching their files).
-Round 1: {r1} changes (`Cxx-mK`); round 2: {r2} changes (`Cxx-r2mK`), whose authors were asked to look beyond the obvious function;
-round 3: {n - r1 - r2 - r4} changes (`Cxx-r3mK`), whose authors were told that a randomised differential test on small inputs exists and asked for
-rarely used library features, narrow triggers and state carried between calls; round 4: {r4} changes (`Cxx-r4mK`), same brief plus the list of
-everything tried before for that property ("find something genuinely different").
+Round 1: {r1} changes (`Cxx-mK`); round 2: {rn(2)} changes (`Cxx-r2mK`), whose authors were asked to look beyond the obvious function;
+round 3: {rn(3)} changes (`Cxx-r3mK`), whose authors were told that a randomised differential test on small inputs exists and asked for
+rarely used library features, narrow triggers and state carried between calls; round 4: {rn(4)} changes (`Cxx-r4mK`), same brief plus the list of
+everything tried before for that property ("find something genuinely different"); rounds 5, 6 and 7: {rn(5)}, {rn(6)} and {rn(7)} changes
+(`Cxx-r5mK` ... `Cxx-r7mK`), same brief, each with the ideas of all earlier rounds listed as already tried.
 
 **{caught} of {n} are detected by the quick check of the property they break** (the `history` column says which were missed on their first evaluation and what was strengthened).
 
